@@ -1,19 +1,18 @@
 ------------------------------- MODULE HpHttp -------------------------------
-(* C13: token alphabets for the HTTP scanners of src/proto/http.c.  One generator (HpTok) is
-   instantiated per function family through the .cfg files:
-     HpHttp_req.cfg   http_parse_req_line                      (ReqPres,  ReqTokens)
-     HpHttp_resp.cfg  http_parse_resp_line                     (RespPres, RespTokens)
-     HpHttp_hdr.cfg   http_hdr_val_get_ex/_count/_remove, http_req_sec_chk   (HdrPres, HdrTokens)
-     HpHttp_qry.cfg   http_query_val_get_ex / http_query_val_del            (NoPres,  QryTokens)
-     HpHttp_chk.cfg   http_data_decode_chunked                 (NoPres,  ChkTokens)
-     HpHttp_url.cfg   http_url_decode                          (NoPres,  UrlTokens)
-     HpHttp_wsp.cfg   skip_spwsp, skip_spwsp2, wsp2sp, ht2sp   (NoPres,  WspTokens)
+(* C13: token alphabets for the HTTP scanners of src/proto/http.c (definitions only; the generator
+   is HpTok, the family tables are in HpText):
+     req   http_parse_req_line                                   (ReqPres,  ReqTokens)
+     resp  http_parse_resp_line                                  (RespPres, RespTokens)
+     hdr   http_hdr_val_get_ex/_count/_remove, http_req_sec_chk  (HdrPres,  HdrTokens)
+     qry   http_query_val_get_ex / http_query_val_del            (NoPres,   QryTokens)
+     chk   http_data_decode_chunked                              (NoPres,   ChkTokens)
+     url   http_url_decode                                       (NoPres,   UrlTokens)
+     wsp   skip_spwsp, skip_spwsp2, wsp2sp, ht2sp                (NoPres,   WspTokens)
    The byte strings are spelled as numbers because TLC has no string-to-bytes operator; the
    comment in front of each alphabet gives them as text.  The safety envelope of these
    functions (error, or every returned pointer/length inside the input) is decided by the
-   conformance driver on the span itself; the spec side supplies the corpus, the class of each
-   input and checks its own rendering laws.                                              *)
-EXTENDS HpTok
+   conformance driver on the span itself; the spec side supplies the corpus and the class of
+   each input and checks its own rendering laws.                                          *)
 
 ReqTokens == <<
    (* SL='/'  A6='aaaaaa'  Q='?'  SCH='://'  SP=' '  V11='HTTP/1.1'  V1='HTTP/1.'  CRLF='\r\n' *)
